@@ -19,13 +19,16 @@ enum Color { RED GREEN }
 input WithEnum { c: Color! = RED cs: [Color] }
 type Query { f(a: Pt, b: Req, c: Dflt, d: One, e: Rec, g: WithEnum): Int }
 '''
-TYPES = ["Pt", "Req", "Dflt", "One", "Rec", "WithEnum", "[Pt]", "[One!]", "Pt!", "[[Dflt]]", "Color", "[Color!]"]
+TYPES = ["Pt", "Req", "Dflt", "One", "Rec", "WithEnum", "[Pt]", "[One!]", "Pt!", "[[Dflt]]", "Color", "[Color!]",
+         "Float", "[Float!]", "Int", "ID", "String", "Boolean"]
 
 
 def values():
     from graphql.pyutils import Undefined
     U = Undefined
-    scal = [0, 1, -1, 0.0, 1.5, "", "s", "RED", True, False, None, U, [], [0], {}, 2 ** 31, float("inf")]
+    scal = [0, 1, -1, 0.0, 1.5, "", "s", "RED", True, False, None, U, [], [0], {}, 2 ** 31, float("inf"),
+            # doubles that need 16-17 significant digits: value -> literal -> value must be exact
+            0.1 + 0.2, 1.7976931348623157e308, 5e-324, 123456789.12345678, -2.2250738585072014e-308, 1e21, 1e-7]
     out = list(scal)
     out += [{"x": v} for v in scal] + [{"x": 1, "y": v} for v in scal] + [{"x": 1, "tag": v} for v in scal]
     out += [{"id": v, "pt": {"x": 1}} for v in scal] + [{"id": "1", "pt": v} for v in scal]
@@ -105,7 +108,50 @@ def search(seed=0, thorough=False):
                 if (c is Undefined) != bool(lerrs):
                     return {"type": tname, "literal": text,
                             "observed": f"coerce_input_literal gives {c!r}, validate_input_literal reports {lerrs!r}"}
+    bad = search_one_of_with_variables()
+    if bad:
+        return bad
     if n < 500:
         raise RuntimeError(f"C15_ref: only {n} cases")
     search.executed = n
+    return None
+
+
+def search_one_of_with_variables():
+    """The literal pair on variable-bearing literals of a OneOf type whose fields carry an out_name
+    (only constructible programmatically): with the same variable values on both sides,
+    coerce_input_literal gives no value exactly when validate_input_literal reports - in particular
+    for a variable that is null or has no value.  BOUNDED: 9 literals x 6 variable mappings x 3 positions."""
+    from graphql import (GraphQLArgument, GraphQLField, GraphQLInputField, GraphQLInputObjectType, GraphQLInt,
+                         GraphQLList, GraphQLNonNull, GraphQLObjectType, GraphQLSchema, GraphQLString, parse, parse_value)
+    from graphql.execution.values import get_variable_values
+    from graphql.pyutils import Undefined
+    from graphql.utilities import coerce_input_literal, validate_input_literal
+    one = GraphQLInputObjectType("One2", {
+        "byId": GraphQLInputField(GraphQLInt, out_name="by_id"),
+        "byName": GraphQLInputField(GraphQLString, out_name="by_name"),
+        "plain": GraphQLInputField(GraphQLInt)}, is_one_of=True)
+    query = GraphQLObjectType("Query", {"f": GraphQLField(GraphQLInt, args={"a": GraphQLArgument(one)})})
+    schema = GraphQLSchema(query)
+    op = parse("query ($i: Int, $s: String, $p: Int) { f }").definitions[0]
+    lits = ["{byId: $i}", "{byName: $s}", "{plain: $p}", "{byId: 1}", "{byId: null}", "{byId: $i, byName: $s}",
+            "{plain: $i}", "{}", "{byName: \"\"}"]
+    mappings = [{}, {"i": None}, {"i": 1}, {"s": None, "i": 1}, {"s": "", "p": 0}, {"i": None, "s": None, "p": None}]
+    for types in (one, GraphQLNonNull(one), GraphQLList(one)):
+        for text in lits:
+            node = parse_value(text)
+            for m in mappings:
+                vv = get_variable_values(schema, op.variable_definitions, m)
+                if isinstance(vv, list):
+                    raise RuntimeError(f"variable values rejected: {vv}")
+                errs = []
+                try:
+                    validate_input_literal(node, types, lambda e, p: errs.append(e.message), vv)
+                    c = coerce_input_literal(node, types, vv)
+                except Exception as e:  # noqa: BLE001
+                    return {"type": str(types), "literal": text, "variables": repr(m),
+                            "observed": f"{type(e).__name__}: {e}"}
+                if (c is Undefined) != bool(errs):
+                    return {"type": str(types), "literal": text, "variables": repr(m),
+                            "observed": f"coerce_input_literal gives {c!r}, validate_input_literal reports {errs!r}"}
     return None
